@@ -139,6 +139,67 @@ def is_ctxfree_top(a, b, patch):
     return False
 
 
+HK2 = None
+
+
+def gen_vs_diff(ctx, rng, count, hist):
+    """the specification-level generator DiffGen.hunks_of (for which 'apply gives B' is PROVED for every script and
+    context width) against what GNU diff prints: scripts in normal form over pairwise different lines, so that the
+    alignment is unique; the hunks must be identical (lines, start lines, context counts)"""
+    import re
+    top = ws.fresh_dir("c01gen2")
+    uid = [0]
+
+    def fresh(tag, n):
+        out = []
+        for _ in range(n):
+            uid[0] += 1
+            out.append(b"%s%d\n" % (tag, uid[0]))
+        return out
+
+    lines, metas = [], []
+    for _ in range(count):
+        c = rng.choice([0, 1, 2, 3])
+        k0 = fresh(b"k", rng.randint(0, 6))
+        nsteps = rng.randint(1, 4)
+        steps = []
+        for i in range(nsteps):
+            r = fresh(b"r", rng.randint(0, 3))
+            a = fresh(b"a", rng.randint(0 if r else 1, 3))
+            keep = fresh(b"k", rng.randint(2 * c + 1, 2 * c + 4) if i < nsteps - 1 else rng.randint(0, 5))
+            steps.append((r, a, keep))
+        A = b"".join(k0) + b"".join(b"".join(r) + b"".join(k) for r, a, k in steps)
+        B = b"".join(k0) + b"".join(b"".join(a) + b"".join(k) for r, a, k in steps)
+        if rng.random() < 0.2 and A.endswith(b"\n") and B.endswith(b"\n") and steps[-1][2]:
+            # the last kept line lacks its newline in both files
+            steps[-1] = (steps[-1][0], steps[-1][1], steps[-1][2][:-1] + [steps[-1][2][-1][:-1]])
+            A, B = A[:-1], B[:-1]
+        hx2 = lambda ls: (b"".join(ls).hex() or "-")
+        lines.append("gen %d %s %d %s" % (c, hx2(k0), len(steps), " ".join("%s %s %s" % (hx2(r), hx2(a), hx2(k)) for r, a, k in steps)))
+        metas.append((c, A, B))
+    model = ctx.model(lines)
+    plines = []
+    for c, A, B in metas:
+        open(os.path.join(top, "A"), "wb").write(A)
+        open(os.path.join(top, "B"), "wb").write(B)
+        p = subprocess.run(["diff", "-a", "-U%d" % c, "--label", "a/f", "--label", "b/f", "A", "B"], cwd=top, stdout=subprocess.PIPE,
+                           env=dict(os.environ, LC_ALL="C"))
+        plines.append("parse 1 0 %s" % (p.stdout.hex() or "-"))
+    shutil.rmtree(top, ignore_errors=True)
+    impl = ctx.impl(plines)
+    bad = 0
+    for (c, A, B), m, io in zip(metas, model, impl):
+        real = re.findall(r"<(\d+) (\d+) (\d+) (\d+) fn=\S* R\[([^\]]*)\] A\[([^\]]*)\]>", io)
+        spec = re.findall(r"<(\d+) (\d+) (\d+) (\d+) R\[([^\]]*)\] A\[([^\]]*)\]>", m)
+        hist["generator vs diff: context=%d" % c] += 1
+        if real != spec:
+            bad += 1
+            if bad <= 2:
+                ctx.violation({"kind": "correspondence-mismatch", "correspondence": "DiffGen.hunks_of vs GNU diff -U%d on a script with unique lines" % c,
+                               "A": A.decode("latin-1"), "B": B.decode("latin-1"), "diff_hunks": real[:4], "generator_hunks": spec[:4]}, no_input=True)
+    ctx.coverage["generator_scripts_compared_with_diff"] = len(metas)
+
+
 def run(ctx):
     rng = ctx.rng
     thorough = ctx.tier == "thorough"
@@ -238,6 +299,7 @@ def run(ctx):
                 if bad <= 3:
                     ctx.violation({"kind": "push-does-not-yield-B", "reverse": rev, "workspace": l3common.ws_json(w), "cfg": l3common.cfg_json(cfg),
                                    "wanted": hx(dst), "got": hx(have_data), "exit": l3common.exit_of(r), "output": out[-300:].decode("latin-1")})
+    gen_vs_diff(ctx, rng, 1200 if thorough else 250, hist)
     l3common.compare(ctx, cases, "one-patch pushes vs L3 model", real_results=want)
     l3common.finish(ctx, "pairs (A,B): 1-14 lines over an 8-line alphabet with repeats, 15%% arbitrary bytes, CR line ends, empty/absent files, "
                          "missing final newline; B = A with 1-4 insert/delete/replace edits; patches by GNU diff -a -U0..4 and git diff --no-index in 7 "
